@@ -299,6 +299,10 @@ impl C12 {
                 if ge.attrs != me.attrs {
                     return Err("attribute order differs in the clone".into());
                 }
+                // below the cloned element nothing is added or removed: same declarations, same order
+                for (gc, mc) in ge.children.iter().zip(me.children.iter()) {
+                    same_tree(gc, mc, Cmp::exact()).map_err(|e| format!("below the cloned element the clone differs from the source (declarations included): {}", e))?;
+                }
             }
             if in_place_ok {
                 ctx.nontrivial = crate::props::common::has_decls(&doc) && model_e.count() >= 3;
@@ -338,6 +342,23 @@ impl C12 {
         let ids_before = id_view(&sim.xot);
         if ids_before[..4].iter().any(|n| n.is_none()) || ids_before[4].is_some() {
             return Verdict::Fail(format!("harness: xml_id_node on the parsed id document gives {:?}", ids_before));
+        }
+        // clone_node of that document: whatever xml_id_node answers for the clone must lie inside
+        // the clone (a clone is made entirely of new nodes) — None is fine
+        {
+            let source_nodes: HashSet<Node> = sim.xot.all_descendants(id_doc).take(10_000).collect();
+            let cd = sim.xot.clone_node(id_doc);
+            for i in IDS {
+                if let Some(n) = sim.xot.xml_id_node(cd, i) {
+                    if source_nodes.contains(&n) || !sim.xot.ancestors(n).take(10_000).any(|a| a == cd) {
+                        return Verdict::Fail(format!("xml_id_node(clone_node(document), {:?}) returns a node that is not part of the clone", i));
+                    }
+                }
+            }
+            if id_view(&sim.xot) != ids_before {
+                return Verdict::Fail("clone_node of a document changed what xml_id_node answers for the source".into());
+            }
+            let _ = sim.xot.remove(cd);
         }
         let copy = sim.xot.clone();
         if id_view(&copy) != ids_before {
